@@ -22,6 +22,8 @@ type fStep struct {
 	Free    bool   `json:"free"`
 	Cross   bool   `json:"cross"`
 	SelfSub bool   `json:"selfsub"`
+	Wk      string `json:"wk"`   // "none" | "small" | "big": the wills of P and S
+	Will    string `json:"will"` // what this step means for the will of C: "due" | "never" | "-"
 }
 type fScenario struct {
 	H    []fStep  `json:"h"`
@@ -80,13 +82,70 @@ type faultRun struct {
 	cl      map[string]*fClient
 	seq     int
 	closedS bool
+	wk      string
+	wills   map[string]int  // wills seen by the witness subscriber, per client
+	never   map[string]bool // clients that ended with DISCONNECT
+}
+
+// noteWill: a PUBLISH on w/will/<name> at the witness subscriber is the will of <name>
+func (fr *faultRun) noteWill(p rawPkt) bool {
+	if p.first>>4 != 3 || len(p.body) < 2 {
+		return false
+	}
+	tl := int(p.body[0])<<8 | int(p.body[1])
+	if len(p.body) < 2+tl {
+		return false
+	}
+	t := string(p.body[2 : 2+tl])
+	if !strings.HasPrefix(t, "w/will/") {
+		return false
+	}
+	fr.wills[strings.TrimPrefix(t, "w/will/")]++
+	return true
+}
+
+// willProblem: a will published twice, or the will of a client that said DISCONNECT
+func (fr *faultRun) willProblem() string {
+	for name, n := range fr.wills {
+		if fr.never[name] {
+			return fmt.Sprintf("the will of %s was published although it ended with DISCONNECT", name)
+		}
+		if n > 1 {
+			return fmt.Sprintf("the will of %s was published %d times", name, n)
+		}
+	}
+	return ""
+}
+
+// awaitWill: after the teardown of an abnormally ended connection is complete, its will has been published
+func (fr *faultRun) awaitWill(name string) string {
+	w2 := fr.cl["W2"]
+	deadline := time.After(3 * time.Second)
+	for fr.wills[name] == 0 {
+		select {
+		case p := <-w2.rx:
+			if !fr.noteWill(p) {
+				return fmt.Sprintf("witness subscriber received a packet that is not its own traffic: %x %x", p.first, short(string(p.body), 24))
+			}
+		case <-deadline:
+			return fmt.Sprintf("the connection of %s ended without DISCONNECT and its teardown is complete, but its will was not published", name)
+		}
+	}
+	return ""
 }
 
 func (fr *faultRun) connect(name, cid string, subs ...string) (*fClient, string) {
 	bev.mu.Lock()
 	n0 := len(bev.admit)
 	bev.mu.Unlock()
-	m, err := fr.r.rawConnect(name, bAct{K: cid, Clean: true, Ka: 600})
+	act := bAct{K: cid, Clean: true, Ka: 600}
+	if (name == "P" || name == "S") && fr.wk != "" && fr.wk != "none" {
+		act.Will = bWill{On: true, T: "w/will/" + name, Pl: "w1", Q: 0}
+		if fr.wk == "big" {
+			act.Will.Pl = "HUGE" // 20,000 bytes: more than a 16 KiB ring
+		}
+	}
+	m, err := fr.r.rawConnect(name, act)
 	if err != nil {
 		return nil, "INFRA connect " + name + ": " + err.Error()
 	}
@@ -140,7 +199,7 @@ func (fr *faultRun) witness() string {
 	w1, w2 := fr.cl["W1"], fr.cl["W2"]
 	payload := []byte(fmt.Sprintf("witness-%d", fr.seq))
 	for len(w2.rx) > 0 {
-		<-w2.rx
+		fr.noteWill(<-w2.rx)
 	}
 	for len(w1.rx) > 0 {
 		<-w1.rx
@@ -160,6 +219,8 @@ func (fr *faultRun) witness() string {
 		case p := <-w2.rx:
 			if p.first>>4 == 3 && bytes.HasSuffix(p.body, payload) {
 				gotMsg = true
+			} else if fr.noteWill(p) {
+				// a will on its way to the witness: accounted for
 			} else {
 				return fmt.Sprintf("witness subscriber received a packet that is not its own traffic: %x %x", p.first, short(string(p.body), 24))
 			}
@@ -241,7 +302,10 @@ var faultDeadline = 6 * time.Second
 func runFaults(sc *fScenario) (string, string) {
 	base, _ := libraryGoroutines()
 	r := newBrokerRun("mockSuccess", 2)
-	fr := &faultRun{r: r, cl: map[string]*fClient{}}
+	fr := &faultRun{r: r, cl: map[string]*fClient{}, wills: map[string]int{}, never: map[string]bool{}}
+	if len(sc.H) > 0 {
+		fr.wk = sc.H[0].Wk
+	}
 	defer func() {
 		for _, f := range fr.cl {
 			f.cut = true
@@ -425,9 +489,20 @@ func runFaults(sc *fScenario) (string, string) {
 					where, st.C, faultDeadline, n-base, short(first, 300)), "C16"
 			}
 		}
+		if st.Will == "never" {
+			fr.never[st.C] = true
+		}
+		if f != nil && st.Will == "due" && st.Free && f.svc != 0 && fr.wk == "small" && !fr.closedS {
+			if d := fr.awaitWill(st.C); d != "" {
+				return fmt.Sprintf("%s: %s", where, d), "C16"
+			}
+		}
 		if !fr.closedS {
 			if d := fr.witness(); d != "" {
 				return fmt.Sprintf("%s: %s", where, d), "C05"
+			}
+			if d := fr.willProblem(); d != "" {
+				return fmt.Sprintf("%s: %s", where, d), "C16"
 			}
 			// bystanders: whatever happened to somebody else, a client that is still connected and reads is
 			// still served once nobody who has stopped reading holds up a delivery (C05: only the offender is affected)
@@ -490,7 +565,7 @@ func runFaults(sc *fScenario) (string, string) {
 // publisher goes on. The publisher's connection must survive (C05: only the offender is affected).
 func ringPointerRace() string {
 	r := newBrokerRun("mockSuccess", 2)
-	fr := &faultRun{r: r, cl: map[string]*fClient{}}
+	fr := &faultRun{r: r, cl: map[string]*fClient{}, wills: map[string]int{}, never: map[string]bool{}}
 	defer func() {
 		service.VerifYieldFn = nil
 		for _, f := range fr.cl {
